@@ -14,6 +14,26 @@ CHECKS = {
    text="ValidatorSet.tla states Increment/UpdateWithChangeSet as specified. TLC checks WellFormed/Window/Centred on all histories (3-5 validators, powers 1..60, depth 3-4, invalid change sets of every class) and FairShare(+-1)/NoStarvation on static-set rotations after arbitrary prefixes; every transition is executed on the real ValidatorSet and compared on order, power, every priority, proposer, error outcome, all-or-nothing and independence of the change-list order. The cap clauses are replayed at the scale where the model's Cap is MaxTotalVotingPower.",
    note="Trusted: TLC, the driver. 32-bit TLC integers: rounding behaviour near the int64/8 cap is only covered for the accept/reject decision, not for priorities.",
    ref="§4-C12"),
+ "C01": dict(
+   engine="node", category="model_checking", technique="TLA+ specs: obligation-level KardiaBFT model-checked exhaustively for Agreement; handler-level KardiaNode bound to the code by trace validation of real multi-node runs (TLC) with Agreement/C03 invariants",
+   text="Two layers joined by C03. KardiaBFT.tla: correct validators may do anything the C03 obligations permit against a maximal Byzantine adversary (< 1/3 power); TLC decides Agreement exhaustively (equal and skewed powers, rounds 1..2 quick / 1..3 thorough; reachability companions and the unsigned-vote-type variant must be violated). Real networks (3-7 real ConsensusState nodes with real chain, stores, pools) run seeded adversarial schedules with a Byzantine validator played by the driver (equivocating votes and proposals, invalid blocks): the real block stores must agree and every run is explained event by event by KardiaNodeTrace.tla (TLC), whose invariants include Agreement and the C03 obligations on the real signature logs.",
+   note="Trusted: TLC, the driver's projection of the round state, C03 as the join (checked separately), C11 for 'signatures bind the vote type'. Validator-set changes across heights and block sync adoption are not yet modelled (static sets; catch-up by consensus gossip only).",
+   ref="§4-C01"),
+ "C03": dict(
+   engine="node", category="model_checking", technique="TLA+ spec KardiaNode.tla (transcription of consensus/state.go) + MC_NodeEnv (one validator vs adversarial environment): TLC checks the obligations; behaviours (exhaustive BFS from scripted start states + simulation walks) replayed step by step on a real ConsensusState",
+   text="KardiaNode.tla transcribes handleMsg/handleTimeout and the whole enterX cascade; MC_NodeEnv.tla puts one validator against an environment that owns all other keys (any proposal incl. invalid blocks and wrong proposers, parts, votes, +2/3 bundles, bad signatures, late precommits, timeouts, races with own messages). TLC checks OneVotePerTypeHR, PrecommitNeedsPolka, LockRespected, OnlyValidVoted on every state (exhaustive to depth 2-4 from 11 scripted start states: locked, moved on while locked, waiting for a POL, next height, commit without block, ...; weighted random walks beyond). Every generated behaviour is executed on a real node with real signed messages; after EVERY step the signature requests, queued messages, full round state, vote sets and ticker are compared with the specification.",
+   note="Trusted: TLC, the driver. Model restriction: the environment never completes +2/3 votes for an invalid block (< 1/3 faulty); 4 equal validators, one-part blocks, static validator set; block validity is abstract (valid / invalid AppHash) — the validation clauses themselves are checked by C13's BlockFields model.",
+   ref="§4-C03"),
+ "C04": dict(
+   engine="node", category="model_checking", technique="real network runs: adversarial prefix (validated against the TLA+ handler spec by TLC) followed by a synchronous suffix with a gossip model; fresh-genesis networks",
+   text="Liveness is decided on the real code as bounded progress after a synchronous point: seeded adversarial prefixes (drops, reordering, early timeouts, Byzantine equivocation, invalid proposals; 3-7 nodes, equal and skewed powers) are explained by KardiaNodeTrace (TLC), then delivery becomes timely (everything in flight and everything consensus/manager.go's gossip would send — votes, proposal, parts, catch-up commits, majority claims — is delivered before the earliest timeout fires) and every correct node must pass the highest height reached; a fresh network built from a genesis document shaped like deployment/local/genesis_devnet.yaml (named validators, staking contract) through LoadStateFromDBOrGenesisDoc must commit heights 1-3.",
+   note="A violation is declared only for no commit within 4000 handler steps of timely delivery or a panic, never for slowness. The TLA+ side contributes the conformance of the prefixes and deadlock-freedom of the handlers inside MC_NodeEnv; unbounded liveness is not model-checked. Restarted nodes are C05/C14.",
+   ref="§4-C04"),
+ "C13": dict(
+   engine="partset", category="model_checking", technique="TLA+ specs (Merkle, PartSet, BlockFields, Codec) model-checked with TLC; every transition/state replayed into the real PartSet, Merkle proof, block validation and codec code",
+   text="Merkle.tla (injective domain-separated hash algebra; Completeness/ContentSound/PositionSound for 1-9 leaves under every mutation), PartSet.tla (AddPart with the proof bound to index and total; CompleteIsOriginal, GenuineNeverBlocked, RejectNoOp for 0-5 parts, all arrival orders, 20 adversarial part kinds) replayed into real types.PartSet built from real block bytes; BlockFields.tla (BlockFromProto/ValidateBasic/validateBlock/VerifyCommit over a record of all header fields, txs, last commit, evidence; TamperEvidentId, UniqueIds, AcceptedIsValid for 48 single-field mutations and pairs) executed on four real nodes through part set, wire decoder and BlockExecutor.ValidateBlock (fresh and warm cache); Codec.tla round trips through proto codecs, consensus envelope and rawdb.",
+   note="Trusted: TLC, the driver's mapping of abstract offers/mutations to real ones, collision resistance of sha256/keccak, secp256k1. Blocks beyond 5 parts, mutations of 3+ fields, unequal powers in the commit check are not covered.",
+   ref="§4-C13"),
 }
 
 NOT_YET = {
